@@ -152,6 +152,15 @@ theorem unplaced_stay (s : FSt) (new : List Msg) (h : FInv s) (ha : s.active = t
   rw [this, List.take_append_drop]
   exact sortCluster_perm _
 
+/-- **A task message goes to at most one worker**: counted with multiplicity, every message that
+    was queued before the tick or queued by it is either handed to exactly one idle worker in the
+    tick or is still in the queue afterwards — never both, never twice, never neither. -/
+theorem handed_xor_queued (s : FSt) (new : List Msg) (h : FInv s) (ha : s.active = true) (m : Msg) :
+    ((s.workers.zip (sortCluster (s.cluster ++ new))).map (·.2)).count m +
+      (Farm.dispatch s new).cluster.count m = (s.cluster ++ new).count m := by
+  have hp := (unplaced_stay s new h ha).count_eq m
+  rwa [List.count_append] at hp
+
 /-- **Each task message is the one its unit was made for**: job and target of the released unit,
     run 0 for regressions, otherwise the run id of the triggering event, or a fresh one drawn
     exactly when the event carried none. -/
@@ -202,6 +211,16 @@ example : (Farm.run (FSt.init 0) demoOps).log =
 /-- the archive tick: a waiting worker is told to leave in the tick that makes the pipeline inactive -/
 example : (Farm.run (FSt.init 0) [.setActive true, .register 1 0, .setArchive true, .dispatch []]).log =
     [(1, Wire.abort)] := by
+  decide +kernel
+
+/-- `handed_xor_queued` on a reachable state: one idle worker, two queued tasks plus one new: one is
+    handed out (count 1 + 0), the other two stay (0 + 1 each). -/
+example :
+    let s := Farm.run (FSt.init 0) [.setActive true, .register 3 0]
+    let new : List Msg := [⟨0, 1, 5⟩, ⟨0, 2, 5⟩, ⟨1, 1, 5⟩]
+    s.active = true ∧ s.workers = [3] ∧
+    ((s.workers.zip (sortCluster (s.cluster ++ new))).map (·.2)).length = 1 ∧
+    (Farm.dispatch s new).cluster.length = 2 := by
   decide +kernel
 
 end DawgieVerif.C11
